@@ -189,14 +189,33 @@ func (db *DB) Close() error {
 }
 
 func (db *DB) Get(key string) (string, error) {
-	bytes, err := db.GetBytes([]byte(key))
+	bytes, err := db.getBytes([]byte(key))
 	if err != nil {
 		return "", err
 	}
 	return string(bytes), nil
 }
 
+// GetBytes returns a slice that belongs to the caller: a value served from the memstore is copied, so writing into the
+// result cannot change what is stored.
 func (db *DB) GetBytes(keyBytes []byte) ([]byte, error) {
+	val, err := db.getBytes(keyBytes)
+	if err != nil {
+		return nil, err
+	}
+	return cloneBytes(val), nil
+}
+
+// cloneBytes copies a slice, nil stays nil.
+func cloneBytes(b []byte) []byte {
+	if b == nil {
+		return nil
+	}
+	return append([]byte{}, b...)
+}
+
+// getBytes may return a slice that is shared with the memstore, it must not be handed out or modified.
+func (db *DB) getBytes(keyBytes []byte) ([]byte, error) {
 	db.rwLock.RLock()
 	defer db.rwLock.RUnlock()
 
@@ -252,10 +271,17 @@ func (db *DB) Put(key, value string) error {
 	keyBytes := []byte(key)
 	valBytes := []byte(value)
 
-	return db.PutBytes(keyBytes, valBytes)
+	return db.putBytes(keyBytes, valBytes)
 }
 
+// PutBytes copies the key and the value: the memstore keeps the slices it is given, and the caller is free to reuse its
+// buffers once the call has returned.
 func (db *DB) PutBytes(keyBytes, valBytes []byte) error {
+	return db.putBytes(cloneBytes(keyBytes), cloneBytes(valBytes))
+}
+
+// putBytes takes ownership of both slices.
+func (db *DB) putBytes(keyBytes, valBytes []byte) error {
 	// this has to be rejected before anything is logged: the WAL would otherwise keep a record of a call that
 	// returned an error, which a later recovery applies or fails on
 	if len(keyBytes) == 0 || len(valBytes) == 0 {
@@ -315,10 +341,16 @@ func (db *DB) PutBytes(keyBytes, valBytes []byte) error {
 
 func (db *DB) Delete(key string) error {
 	byteKey := []byte(key)
-	return db.DeleteBytes(byteKey)
+	return db.deleteBytes(byteKey)
 }
 
+// DeleteBytes copies the key, see PutBytes.
 func (db *DB) DeleteBytes(byteKey []byte) error {
+	return db.deleteBytes(cloneBytes(byteKey))
+}
+
+// deleteBytes takes ownership of the key slice.
+func (db *DB) deleteBytes(byteKey []byte) error {
 	bytes, err := proto.Marshal(&dbproto.WalMutation{
 		Mutation: &dbproto.WalMutation_DeleteTombStone{
 			DeleteTombStone: &dbproto.DeleteTombstoneMutation{
